@@ -8,6 +8,8 @@
 //! * `fnv`        - stable 64-bit hash for traces / distinctness counting.
 
 pub mod panics;
+pub mod pipeline;
+pub mod simkv;
 pub mod sched;
 pub mod token;
 
